@@ -1,0 +1,114 @@
+//go:build verif
+
+package gjkr
+
+import (
+	"github.com/keep-network/keep-core/pkg/net"
+	"github.com/keep-network/keep-core/pkg/protocol/group"
+)
+
+// Verification hook (build tag verif, property C12): builds the message
+// receiving states around a bare member core and re-exports their Receive
+// methods and message lists. No protocol logic is added.
+
+// VerifC12Receiver is a handle on one state's Receive method and on the
+// number of messages the state has stored so far.
+type VerifC12Receiver struct {
+	Receive func(msg net.Message) error
+	Stored  func() int
+}
+
+// VerifC12StateKinds lists the message-consuming states and the message
+// kinds each one accepts.
+func VerifC12StateKinds() map[string][]string {
+	return map[string][]string{
+		"epk":     {"epk"},
+		"commit":  {"shares", "commitments"},
+		"accuse":  {"accuse"},
+		"points":  {"points"},
+		"paccuse": {"paccuse"},
+		"reveal":  {"reveal"},
+	}
+}
+
+func VerifC12NewReceiver(
+	kind string,
+	self group.MemberIndex,
+	grp *group.Group,
+	membershipValidator *group.MembershipValidator,
+	sessionID string,
+) *VerifC12Receiver {
+	core := &memberCore{
+		ID:                  self,
+		group:               grp,
+		membershipValidator: membershipValidator,
+		sessionID:           sessionID,
+	}
+	ekm := &EphemeralKeyPairGeneratingMember{LocalMember: &LocalMember{memberCore: core}}
+	cm := &CommittingMember{
+		SymmetricKeyGeneratingMember: &SymmetricKeyGeneratingMember{
+			EphemeralKeyPairGeneratingMember: ekm,
+		},
+	}
+	cvm := &CommitmentsVerifyingMember{CommittingMember: cm}
+	sm := &SharingMember{
+		QualifiedMember: &QualifiedMember{
+			SharesJustifyingMember: &SharesJustifyingMember{
+				CommitmentsVerifyingMember: cvm,
+			},
+		},
+	}
+	rm := &RevealingMember{
+		PointsJustifyingMember: &PointsJustifyingMember{SharingMember: sm},
+	}
+
+	switch kind {
+	case "epk":
+		st := &ephemeralKeyPairGenerationState{member: ekm}
+		return &VerifC12Receiver{st.Receive, func() int { return len(st.phaseMessages) }}
+	case "commit":
+		st := &commitmentState{member: cm}
+		return &VerifC12Receiver{st.Receive, func() int {
+			return len(st.phaseSharesMessages) + len(st.phaseCommitmentsMessages)
+		}}
+	case "accuse":
+		st := &commitmentsVerificationState{member: cvm}
+		return &VerifC12Receiver{st.Receive, func() int { return len(st.phaseAccusationsMessages) }}
+	case "points":
+		st := &pointsShareState{member: sm}
+		return &VerifC12Receiver{st.Receive, func() int { return len(st.phaseMessages) }}
+	case "paccuse":
+		st := &pointsValidationState{member: sm}
+		return &VerifC12Receiver{st.Receive, func() int { return len(st.phaseMessages) }}
+	case "reveal":
+		st := &keyRevealState{member: rm}
+		return &VerifC12Receiver{st.Receive, func() int { return len(st.phaseMessages) }}
+	}
+	return nil
+}
+
+// VerifC12NewMessage builds a protocol message of the given kind carrying
+// only the sender index and the session identifier.
+func VerifC12NewMessage(
+	kind string,
+	senderID group.MemberIndex,
+	sessionID string,
+) net.TaggedMarshaler {
+	switch kind {
+	case "epk":
+		return &EphemeralPublicKeyMessage{senderID: senderID, sessionID: sessionID}
+	case "shares":
+		return &PeerSharesMessage{senderID: senderID, sessionID: sessionID}
+	case "commitments":
+		return &MemberCommitmentsMessage{senderID: senderID, sessionID: sessionID}
+	case "accuse":
+		return &SecretSharesAccusationsMessage{senderID: senderID, sessionID: sessionID}
+	case "points":
+		return &MemberPublicKeySharePointsMessage{senderID: senderID, sessionID: sessionID}
+	case "paccuse":
+		return &PointsAccusationsMessage{senderID: senderID, sessionID: sessionID}
+	case "reveal":
+		return &MisbehavedEphemeralKeysMessage{senderID: senderID, sessionID: sessionID}
+	}
+	return nil
+}
